@@ -169,7 +169,7 @@ v('C09', 'silent', FL, _PR_OLD,
   "            partial = (measurement_time - time) / increment['dt'] * increment\n            pva = pd.concat([\n"
   "                integrator.predict(partial),\n                pd.Series(increment[THETA_COLS].values / increment['dt'],\n",
   'the predicted increment held in a local: same values')
-v('C10 C11', 'fire', FL, '    times = trajectory_nominal.index\n', '    times = trajectory_nominal.index\n    time_step = max(time_step, times[1] - times[0])\n', 'seeded C10 round 5: step clamped to the first sampling interval')
+v('C10', 'fire', FL, '    times = trajectory_nominal.index\n', '    times = trajectory_nominal.index\n    time_step = max(time_step, times[1] - times[0])\n', 'seeded C10 round 5: step clamped to the first sampling interval')
 v('C09 C12', 'silent', FL, '    end_time = increments.index[-1]', '    end_time = increments.index.max()', 'same end of a sorted index, other spelling')
 v('C09', 'silent', FL, '    end_time = increments.index[-1]', '    end_time = float(np.max(increments.index))')
 v('C09', 'fire', FL, '    end_time = increments.index[-1]', '    end_time = increments.index[-2]', 'the run stops one increment early')
@@ -740,7 +740,7 @@ v('C15', 'silent', S, _CS_OLD,
   "        sculling = (np.cross(gyro_previous, accel_increment) +\n"
   "                    np.cross(accel_previous, gyro_increment)) / 12\n",
   'the same rows, stacked from two pieces')
-v('C16 C04', 'fire', 'earth.py', 'result[:, 2, 1] = -result[:, 0, 1] * np.tan(np.deg2rad(lat))',
+v('C16', 'fire', 'earth.py', 'result[:, 2, 1] = -result[:, 0, 1] * np.tan(np.deg2rad(lat))',
   'result[:, 2, 1] = -result[0, 0, 1] * np.tan(np.deg2rad(lat))', 'round-6 seed C16: 1/re of the first sample for the whole batch')
 v('C17 C01', 'fire', K, '        k2 = (1 - np.cos(norm)) / norm2\n', '        k2 = k1 * k1 / (1 + cos)\n',
   'round-6 seed C17: identity with a pole at |rv| = pi')
